@@ -127,6 +127,8 @@ def run(ck, ctx):
     ck.ob("C11.6", "IN:sequence", [c for c, v in seq] == ["TRAP_PUTS", "TRAP_GETC", "TRAP_PUTC"] and prompt and seq[2][1] == ("io", "KBDR"),
           "IN = PUTS(prompt %r); GETC; PUTC(the byte just read: %s)" % (prompt, seq[2][1] if len(seq) > 2 else None), "src/os.asm:%s" % P.at[r.entry].line)
     ck.include("C33", ctx, "C11.7", {"C33.2", "C33.3"}, "the routines' contracts (emit R0's low byte, consume one queued byte) rest on the device registers: DDR write = low byte appended once, KBDR effectful read = front byte removed once, status = ready<<15")
+    ck.include("C10", ctx, "C11.8", {"C10.4", "C10.5"}, "the routines leave R6 and user memory unchanged only if trap entry and RTI agree on the stack switch (entry sequence, stack swap, frame type)")
+    ck.include("C09", ctx, "C11.9", {"C09.3"}, "the entry sequence stores through the supervisor context chosen after the privilege switch")
     ck.assume("TRAP does not write R7 and RTI restores PSR (condition codes, privilege) and PC: C08 effect rows, C10.5")
     ck.assume("HALT: C12.3 TRAP_HALT; the device side of KBSR/KBDR/DSR/DDR is C32/C33's concern")
     ck.assume("not decided: the arithmetic of PUTSP's high-byte extraction, termination of the poll loops, the characters themselves")
